@@ -254,9 +254,9 @@ def other_unit(kind):
                     except Exception as ex:
                         F(("dynelf", "load-exc:%s@%s" % exc_sig(ex)), "%s: load_program raised %r" % (lab, ex), cdesc)
     elif kind == "macho":
-        for ns in (1, 2):
-            blob, d = c14.macho_build(True, ns, 1)
-            lab = "MachO64/%dsect" % ns
+        for ns, lay in ((1, "plain"), (2, "plain"), (1, "zerofill"), (2, "zerofill")):
+            blob, d = c14.macho_build(True, ns, 1, lay)
+            lab = "MachO64/%dsect/%s" % (ns, lay)
             cdesc = {"kind": "macho", "label": lab}
             n += 1
             try:
@@ -265,6 +265,9 @@ def other_unit(kind):
                     F(("macho", "no-task"), "%s: load_program returned None" % lab, cdesc)
                     continue
                 loads = [(d["vmaddr"], 0, d["filesize"], d["vmsize"])]
+                if lay == "zerofill":
+                    # the segment without file content (only zero-fill sections) reads as zero
+                    loads.append((d["vmaddr"] + 0x3000, 0, 0, 0x1000))
                 for what, detail in check_image(task, blob, loads, d["entry"], lab, cdesc, check_fetch=False):
                     F(("macho", what), "%s: %s" % (lab, detail), cdesc)
             except Exception as ex:
